@@ -165,7 +165,17 @@ impl Monitor {
                 }
             }
             Stim::Msg(ConsensusMessage::Propose(b)) => {
-                self.blocks.insert(b.digest().0, b.clone());
+                // a block's digest does not cover the body of its QC (only `qc.hash`) nor its TC, so two
+                // different messages can carry one digest; a vote names the digest only.  A variant
+                // that verifies is never replaced by one that does not: the vote is judged against a
+                // block the node could have accepted, if it was shown one.
+                let keep_old = match self.blocks.get(&b.digest().0) {
+                    Some(old) => Self::valid_block(u, old) && !Self::valid_block(u, b),
+                    None => false,
+                };
+                if !keep_old {
+                    self.blocks.insert(b.digest().0, b.clone());
+                }
                 for d in &b.payload {
                     self.payload_seen.insert(d.0);
                 }
